@@ -168,6 +168,9 @@ fn mkfs(cfg: &FsCfg, q: &Arc<Mutex<VecDeque<u64>>>, u: &Arc<Mutex<u64>>) -> Arc<
 #[derive(Clone, Debug)]
 pub struct Divergence {
     pub observable: String,
+    /// for existence divergences: which way round ("" otherwise); part of the signature of
+    /// post-crash divergences only
+    pub direction: &'static str,
     pub path: String,
     pub detail: String,
 }
@@ -188,8 +191,16 @@ fn compare_sweep(model: &Model, skip: &dyn Fn(&str) -> bool) -> Option<Divergenc
         } else {
             "directory listing"
         };
+        let direction = if g.exists && !w.exists {
+            ":present-but-not-durable"
+        } else if !g.exists && w.exists {
+            ":durable-but-missing"
+        } else {
+            ""
+        };
         return Some(Divergence {
             observable: observable.into(),
+            direction,
             path: g.path.to_string(),
             detail: format!(
                 "{}: implementation shows exists={} kind={} len={} content={:?} entries={:?}; reference tree has exists={} kind={} len={} content={:?} entries={:?}",
@@ -258,9 +269,10 @@ impl FsSys {
         let _g = enter(&self.fs, self.now);
         let mk = |clause: &str, d: &Divergence, s: &FsSys| {
             Violation::new(clause, format!("after `{}`: {}", op.describe(), d.detail)).with_sig(format!(
-                "{}:{}|{}",
+                "{}:{}{}|{}",
                 clause,
                 d.observable,
+                if clause == "post-crash" { d.direction } else { "" },
                 s.cfg.name
             ))
         };
@@ -324,6 +336,7 @@ impl FsSys {
                 if !ok {
                     let d = Divergence {
                         observable: "return value".into(),
+                        direction: "",
                         path: op.paths().first().copied().unwrap_or("").into(),
                         detail: format!("returned {got:?}; a POSIX file tree returns {want:?}"),
                     };
